@@ -609,6 +609,8 @@ def run(chk):
         shared.target_split(chk, prog, "R8.target_split", cfg=cfg)
         shared.header_line_split(chk, prog, "R8.header_split", "humphrey::http::request::Request::from_stream_inner", cfg=cfg)
         reads(chk, prog, cfg)
+        shared.every_header_line_stored(chk, prog, "R8.every_header_stored", "humphrey::http::request::Request::from_stream_inner", cfg=cfg)
+        shared.request_address_fixed(chk, prog, "R6.address_of_this_request", cfg=cfg)
         from . import shared as _sh
         _sh.start_line_exact(chk, prog, "R3.start_line", cfg=cfg)
         body_bytes(chk, prog, cfg)
